@@ -17,10 +17,16 @@ fn ob(r: Option<Vec<u8>>) -> String {
         None => "None".into(),
     }
 }
+/// every output buffer already holds three bytes (a caller appending results to one buffer): the
+/// observation includes them, so a form that overwrites or drops earlier content differs from one
+/// that appends
+fn used() -> Vec<u8> {
+    vec![0xEE, 0x20, 0x00]
+}
 fn rb(r: Result<(), jsonb::Error>, buf: Vec<u8>) -> String {
     match r {
         Ok(()) => format!("Ok({})", hex(&buf)),
-        Err(_) => "Err".into(),
+        Err(_) => format!("Err(buffer {})", hex(&buf)),
     }
 }
 fn text_obs(s: String) -> String {
@@ -51,14 +57,14 @@ pub fn observe1(v: &RVal, d: &[u8], serde_ok: bool) -> Vec<(String, String)> {
         for ic in [false, true] {
             p!(format!("get_by_name({:?},{})", name, ic), ob(jsonb::get_by_name(d, &name, ic)));
         }
-        let mut b = vec![];
+        let mut b = used();
         let r = jsonb::delete_by_name(d, &name, &mut b);
         p!(format!("delete_by_name({:?})", name), rb(r, b));
     }
     for path in keypaths(v, v.depth() + 1, true) {
         let kp: Vec<_> = path.iter().map(to_keypath).collect();
         p!(format!("get_by_keypath({:?})", path), ob(jsonb::get_by_keypath(d, kp.iter())));
-        let mut b = vec![];
+        let mut b = used();
         let r = jsonb::delete_by_keypath(d, kp.iter(), &mut b);
         p!(format!("delete_by_keypath({:?})", path), rb(r, b));
     }
@@ -102,15 +108,15 @@ pub fn observe1(v: &RVal, d: &[u8], serde_ok: bool) -> Vec<(String, String)> {
     }
     let alen = len as i32;
     for i in [-alen - 1, -alen, -1, 0, 1, alen, i32::MAX] {
-        let mut b = vec![];
+        let mut b = used();
         let r = jsonb::delete_by_index(d, i, &mut b);
         p!(format!("delete_by_index({})", i), rb(r, b));
     }
     {
-        let mut b = vec![];
+        let mut b = used();
         let r = jsonb::array_distinct(d, &mut b);
         p!("array_distinct", rb(r, b));
-        let mut b = vec![];
+        let mut b = used();
         let r = jsonb::strip_nulls(d, &mut b);
         p!("strip_nulls", rb(r, b));
     }
@@ -121,10 +127,10 @@ pub fn observe1(v: &RVal, d: &[u8], serde_ok: bool) -> Vec<(String, String)> {
     kc.push("zz".into());
     for mask in 0u32..(1 << kc.len().min(3)) {
         let ks: BTreeSet<&str> = (0..kc.len().min(3)).filter(|i| mask & (1 << i) != 0).map(|i| kc[i].as_str()).collect();
-        let mut b = vec![];
+        let mut b = used();
         let r = jsonb::object_delete(d, &ks, &mut b);
         p!(format!("object_delete({:?})", ks), rb(r, b));
-        let mut b = vec![];
+        let mut b = used();
         let r = jsonb::object_pick(d, &ks, &mut b);
         p!(format!("object_pick({:?})", ks), rb(r, b));
     }
@@ -133,7 +139,7 @@ pub fn observe1(v: &RVal, d: &[u8], serde_ok: bool) -> Vec<(String, String)> {
         p!(format!("path_exists({})", ps), format!("{:?}", jsonb::path_exists(d, jp()).ok()));
         p!(format!("path_match({})", ps), format!("{:?}", jsonb::path_match(d, jp()).ok()));
         for (n, f) in [("get_by_path", jsonb::get_by_path as fn(&[u8], jsonb::jsonpath::JsonPath, &mut Vec<u8>, &mut Vec<u64>) -> Result<(), jsonb::Error>), ("get_by_path_first", jsonb::get_by_path_first), ("get_by_path_array", jsonb::get_by_path_array)] {
-            let (mut b, mut off) = (vec![], vec![]);
+            let (mut b, mut off) = (used(), vec![3u64]);
             let r = f(d, jp(), &mut b, &mut off);
             p!(format!("{}({})", n, ps), format!("{} {:?}", rb(r, b), off));
         }
@@ -144,7 +150,7 @@ pub fn observe1(v: &RVal, d: &[u8], serde_ok: bool) -> Vec<(String, String)> {
             p!("lazy.to_vec", hex(&l.to_vec()));
             p!("lazy.array_length", format!("{:?}", l.array_length()));
             p!("lazy.to_value", format!("{:?}", from_value(&l.to_value())));
-            let mut b = vec![];
+            let mut b = used();
             l.write_to_vec(&mut b);
             p!("lazy.write_to_vec", hex(&b));
         }
@@ -157,23 +163,23 @@ pub fn observe2(a: &[u8], b: &[u8]) -> Vec<(String, String)> {
     let mut o: Vec<(String, String)> = vec![];
     o.push(("compare".into(), format!("{:?}", jsonb::compare(a, b).ok())));
     o.push(("contains".into(), format!("{}", jsonb::contains(a, b))));
-    let mut buf = vec![];
+    let mut buf = used();
     let r = jsonb::concat(a, b, &mut buf);
     o.push(("concat".into(), rb(r, buf)));
     for pos in [0, -1, 1] {
-        let mut buf = vec![];
+        let mut buf = used();
         let r = jsonb::array_insert(a, pos, b, &mut buf);
         o.push((format!("array_insert({})", pos), rb(r, buf)));
     }
-    let mut buf = vec![];
+    let mut buf = used();
     let r = jsonb::array_intersection(a, b, &mut buf);
     o.push(("array_intersection".into(), rb(r, buf)));
-    let mut buf = vec![];
+    let mut buf = used();
     let r = jsonb::array_except(a, b, &mut buf);
     o.push(("array_except".into(), rb(r, buf)));
     o.push(("array_overlap".into(), format!("{:?}", jsonb::array_overlap(a, b).ok())));
     for (k, f) in [("a", true), ("zz", false)] {
-        let mut buf = vec![];
+        let mut buf = used();
         let r = jsonb::object_insert(a, k, b, f, &mut buf);
         o.push((format!("object_insert({:?},{})", k, f), rb(r, buf)));
     }
@@ -296,19 +302,19 @@ fn observe_lite(v: &RVal, d: &[u8]) -> Vec<(String, String)> {
             if let Ok(jp) = jsonb::jsonpath::parse_json_path(ps.as_bytes()) {
                 o.push((format!("path_exists({})", ps), format!("{:?}", jsonb::path_exists(d, jp.clone()).ok())));
                 o.push((format!("path_match({})", ps), format!("{:?}", jsonb::path_match(d, jp.clone()).ok())));
-                let (mut b, mut off) = (vec![], vec![]);
+                let (mut b, mut off) = (used(), vec![3u64]);
                 let r = jsonb::get_by_path(d, jp, &mut b, &mut off);
                 o.push((format!("get_by_path({})", ps), format!("{} {:?}", rb(r, b), off)));
             }
         }
-        let mut b = vec![];
+        let mut b = used();
         let r = jsonb::delete_by_name(d, k, &mut b);
         o.push((format!("delete_by_name({:?})", k), rb(r, b)));
     }
     for ps in ["$[*]", "$.*", "$[last]", "$[0 to 2]"] {
         let jp = jsonb::jsonpath::parse_json_path(ps.as_bytes()).unwrap();
         o.push((format!("path_exists({})", ps), format!("{:?}", jsonb::path_exists(d, jp.clone()).ok())));
-        let (mut b, mut off) = (vec![], vec![]);
+        let (mut b, mut off) = (used(), vec![3u64]);
         let r = jsonb::get_by_path(d, jp, &mut b, &mut off);
         o.push((format!("get_by_path({})", ps), format!("{} {:?}", rb(r, b), off)));
     }
@@ -317,7 +323,7 @@ fn observe_lite(v: &RVal, d: &[u8]) -> Vec<(String, String)> {
     let mut k = vec![];
     jsonb::convert_to_comparable(d, &mut k);
     o.push(("convert_to_comparable".into(), hex(&k)));
-    let mut b = vec![];
+    let mut b = used();
     let r = jsonb::strip_nulls(d, &mut b);
     o.push(("strip_nulls".into(), rb(r, b)));
     o
